@@ -18,7 +18,7 @@ LEVEL = "model_checking"
 INV = ["TraceNotStuck", "C18_OrderIndependent", "C18_RemovedReclaimable", "C02_CountersMatchRecount"]
 
 
-def add_resyncs(scripts, cats, rnd, max_perms):
+def add_resyncs(scripts, cats, rnd, max_perms, pad=False):
     out = []
     for s in scripts:
         objs = cats[s["cat"]]["objs"]
@@ -35,8 +35,15 @@ def add_resyncs(scripts, cats, rnd, max_perms):
                 rnd.shuffle(p)
                 chosen.append(tuple(p))
         chosen = [tuple(putable), tuple(reversed(putable))] + chosen
-        for p in chosen:
-            steps.append({"ev": "Resync", "perm": list(p)})
+        # blobs left behind without metadata (crash between blob write and metabase refusal of a put)
+        for _ in range(rnd.choice([0, 0, 1, 2])):
+            steps.append({"ev": "Blob", "o": rnd.choice(putable)})
+        for k, p in enumerate(chosen):
+            st = {"ev": "Resync", "perm": list(p)}
+            if pad and k >= 2:
+                # filler blobs first: the catalogue blobs straddle the metabase's batch boundary (1000)
+                st["b"] = 1000 - rnd.randrange(0, len(p) + 1)
+            steps.append(st)
         out.append({"cat": s["cat"], "steps": steps})
     return out
 
@@ -63,7 +70,14 @@ def run(ck):
     for cat, n_sim, n_rnd, mp in plan:
         base = mu.gen_scripts(ck, binp, cat, n_sim, n_rnd, depth=10)
         scripts = add_resyncs(base, cats, rnd, mp)
+        # a few histories with ~1000 filler blobs so that catalogue blobs fall on the batch boundary
+        npad = 40 if thorough else 4
+        scripts = scripts[:-npad] + add_resyncs(base[-npad:], cats, rnd, mp, pad=True)
         out = mu.run_validate(ck, binp, cat, scripts, INV)
+        lost = [e for e in out["events"] if e["ev"] == "Resync" and e.get("fillers_missing", 0) > 0]
+        if lost:
+            ck.violation("resync lost %d blobs at a batch boundary (catalogue %s, %d filler blobs enumerated first)" % (
+                lost[0]["fillers_missing"], cat, lost[0]["b"]), {"event": {k: v for k, v in lost[0].items() if k != "v"}})
         rs = [e for e in out["events"] if e["ev"] == "Resync"]
         n_resync += len(rs)
         ck.sample({"cat": cat, "resync_event": {k: v for k, v in rs[0].items() if k != "v"} if rs else None, "script_len": len(scripts[0]["steps"])})
